@@ -69,7 +69,8 @@ fn main() {
             plans.push((vec![Kind::Gate], true, true));
             plans.push((vec![Kind::GateDrop], true, false));
             plans.push((vec![Kind::Panic], true, false));
-            plans.push((vec![Kind::Gate, Kind::Gate], false, false));
+            // two clients, every maximal path (4576 histories per mode)
+            plans.push((vec![Kind::Gate, Kind::Gate], true, false));
             plans.push((vec![Kind::Gate, Kind::Panic], false, false));
         }
         (Tier::Quick, true) => {
@@ -122,7 +123,7 @@ fn main() {
                 for (kinds, paths, half) in &plans {
                     let cfg = WorldCfg { mode, rt: *rt, kinds: kinds.clone(), with_shutdown: c17, with_half: *half };
                     let (hist, nstates, capped_enum) = if *paths {
-                        let (h, c) = all_paths(&cfg, ctx.tier.pick(4000, 60000));
+                        let (h, c) = all_paths(&cfg, ctx.tier.pick(5000, 60000));
                         let (_, ns) = transition_cover(&cfg);
                         (h, ns, c)
                     } else {
